@@ -77,6 +77,13 @@ def gen_cases(tier, seed):
         cases.append({"kind": "moved", "device": dev, "options": o, "drive": drive, "monitors": ["pin"], "move": ["translate_inplace", "translation_context", "remesh"][k % 3],
                       "shift_frac": [[0.3, 0.03][(k // 2) % 2] * np.cos(ang), [0.3, 0.03][(k // 2) % 2] * np.sin(ang)], "cost": 12})
     for k in range(2 if tier == "quick" else 8):
+        # the device went through a file (to_hdf5 / from_hdf5 with its mesh) before it is solved
+        dev = zoo.gen_device(rng, n_terminals=[2, 3][k % 2], n_holes=int(k % 2), probes=0, size="small")
+        o = S.base_options(rng, adaptive=bool(k % 2), steps=40)
+        o["terminal_psi"] = [0.0, 0.5][k % 2]
+        drive = {"A": S.field_spec(rng, dev, o, "uniform", b=0.2), "currents": S.current_spec(rng, dev, o, "const", strength=0.15)}
+        cases.append({"kind": "reloaded", "device": dev, "options": o, "drive": drive, "monitors": ["pin"], "cost": 8})
+    for k in range(2 if tier == "quick" else 8):
         # ONE SolverOptions object: first used on a device WITHOUT terminals, then on the device with terminals
         dev = zoo.gen_device(rng, n_terminals=[2, 3][k % 2], probes=0, size="small")
         o = S.base_options(rng, adaptive=bool(k % 2), steps=40)
@@ -184,6 +191,28 @@ def run_case(spec):
         return out
     if spec["kind"] == "moved":
         return _run_moved(spec)
+    if spec["kind"] == "reloaded":
+        import os
+        import shutil
+        import tempfile
+
+        import tdgl
+
+        device, why = zoo.try_build_device(spec["device"])
+        if device is None:
+            return {"violations": [], "counters": {"refused_mesh": 1}, "classes": ["refused"], "nontrivial": False}
+        tmpd = tempfile.mkdtemp(prefix="vt_c06_")
+        try:
+            device.to_hdf5(os.path.join(tmpd, "dev.h5"))
+            loaded = tdgl.Device.from_hdf5(os.path.join(tmpd, "dev.h5"))
+        finally:
+            shutil.rmtree(tmpd, ignore_errors=True)
+        out = S.run_sim_case(spec, "C06", device=loaded)
+        out["classes"] = ["reloaded_device", "terminal_psi=" + str(spec["options"].get("terminal_psi"))]
+        c = out["counters"]
+        c["reloaded_device_runs"] = 1
+        out["nontrivial"] = c.get("update_calls", 0) >= 10
+        return out
     if spec["kind"] == "options_reused":
         import dataclasses
 
